@@ -84,6 +84,10 @@ type World struct {
 	Gated  bool
 	Record bool
 
+	pendingGated bool
+	// OnNewHalf, if set, is called for every new attempt before its Connect* call starts.
+	OnNewHalf func(*Half)
+
 	doCancel context.CancelFunc
 	DoDone   chan struct{}
 	EvCh     chan iobroker.Event
@@ -176,10 +180,16 @@ func (w *World) newHalf(id int, dir, key string, req int, addr string, isIO bool
 		gate: make(chan struct{}, 1), parked: make(chan string, 1), finished: make(chan string, 2),
 		returned: make(chan struct{})}
 	h.W = &RecWriter{w: w, att: id}
+	if w.pendingGated {
+		h.W.SetGated()
+	}
 	h.R = NewScriptReader(w, id)
 	w.mu.Lock()
 	w.Halves[id] = h
 	w.mu.Unlock()
+	if w.OnNewHalf != nil {
+		w.OnNewHalf(h)
+	}
 	return h
 }
 
@@ -232,6 +242,20 @@ func (w *World) StartIO(idIn, idOut, req int, wkind string) (*Half, *Half) {
 		w.B.ConnectInOut(ctx, sl, addr, hi.Writer(), ho.R)
 	}()
 	return hi, ho
+}
+
+// StartUniGated is StartUni with an optionally gated writer.
+func (w *World) StartUniGated(id int, dir, key string, req int, wkind string, gated bool) *Half {
+	w.pendingGated = gated
+	defer func() { w.pendingGated = false }()
+	return w.StartUni(id, dir, key, req, wkind)
+}
+
+// StartIOGated is StartIO with an optionally gated writer.
+func (w *World) StartIOGated(idIn, idOut, req int, wkind string, gated bool) (*Half, *Half) {
+	w.pendingGated = gated
+	defer func() { w.pendingGated = false }()
+	return w.StartIO(idIn, idOut, req, wkind)
 }
 
 // WaitParked waits for h to park at a gate.
@@ -448,10 +472,10 @@ func WaitNoBrokerGoroutines(d time.Duration) []string {
 
 // WOp is one operation seen by a RecWriter.
 type WOp struct {
-	Seq   int64
-	Kind  string // "write" / "flush"
-	Data  string
-	Fail  bool
+	Seq  int64
+	Kind string // "write" / "flush"
+	Data string
+	Fail bool
 }
 
 // RecWriter records writes and flushes and can be told to fail.
@@ -465,18 +489,126 @@ type RecWriter struct {
 	FailFlush int
 	Mode      string // "flusherr" (default), "flusher", "plain"
 	notify    chan struct{}
+	// scripted results (true = ok), consumed one per call; default ok
+	WriteRes []bool
+	FlushRes []bool
+	// OnOp, if set, is called for every operation with the lock held
+	OnOp func(kind string, data []byte, fail bool)
+	// gating: when gated, every call parks until Give hands it a result
+	gated  bool
+	parked string    // kind of the parked call ("" = none)
+	give   chan bool // result for the parked call
+}
+
+// SetGated switches gating on; every Write / flush call then waits for Give.
+func (rw *RecWriter) SetGated() {
+	rw.mu.Lock()
+	rw.gated = true
+	rw.give = make(chan bool)
+	rw.mu.Unlock()
+}
+
+// Ungate lets the parked call and all future calls proceed (result ok).
+func (rw *RecWriter) Ungate() {
+	rw.mu.Lock()
+	was := rw.gated
+	rw.gated = false
+	g := rw.give
+	rw.mu.Unlock()
+	if was && g != nil {
+		close(g)
+	}
+}
+
+// Give hands a result to a call of the given kind, waiting up to d for one to
+// be parked.  It reports whether the result was handed over.
+func (rw *RecWriter) Give(kind string, ok bool, d time.Duration) bool {
+	dl := time.Now().Add(d)
+	for {
+		rw.mu.Lock()
+		p, g, gated := rw.parked, rw.give, rw.gated
+		rw.mu.Unlock()
+		if !gated {
+			return false
+		}
+		if p == kind {
+			select {
+			case g <- ok:
+				return true
+			case <-time.After(time.Until(dl)):
+				return false
+			}
+		}
+		if time.Now().After(dl) {
+			return false
+		}
+		time.Sleep(30 * time.Microsecond)
+	}
+}
+
+// park waits for a result if the writer is gated; the bool is the result (ok).
+func (rw *RecWriter) park(kind string) bool {
+	rw.mu.Lock()
+	if !rw.gated {
+		rw.mu.Unlock()
+		return true
+	}
+	rw.parked = kind
+	g := rw.give
+	rw.mu.Unlock()
+	ok, open := <-g
+	rw.mu.Lock()
+	rw.parked = ""
+	rw.mu.Unlock()
+	if !open {
+		return true
+	}
+	return ok
+}
+
+// Script appends a scripted result for the next unscripted write or flush.
+func (rw *RecWriter) Script(kind string, ok bool) {
+	rw.mu.Lock()
+	defer rw.mu.Unlock()
+	if kind == "write" {
+		rw.WriteRes = append(rw.WriteRes, ok)
+	} else {
+		rw.FlushRes = append(rw.FlushRes, ok)
+	}
+}
+
+// Scripted returns how many scripted results are still unconsumed.
+func (rw *RecWriter) Scripted() int {
+	rw.mu.Lock()
+	defer rw.mu.Unlock()
+	return len(rw.WriteRes) + len(rw.FlushRes)
+}
+
+// SetOnOp installs the operation callback.
+func (rw *RecWriter) SetOnOp(f func(kind string, data []byte, fail bool)) {
+	rw.mu.Lock()
+	rw.OnOp = f
+	rw.mu.Unlock()
 }
 
 // ErrInjected is the injected transport error.
 var ErrInjected = errors.New("injected transport error")
 
 func (rw *RecWriter) Write(p []byte) (int, error) {
+	gok := rw.park("write")
 	rw.mu.Lock()
 	defer rw.mu.Unlock()
-	fail := false
+	fail := !gok
 	if rw.FailWrite > 0 {
 		rw.FailWrite--
 		fail = rw.FailWrite == 0
+	}
+	if len(rw.WriteRes) > 0 {
+		fail = fail || !rw.WriteRes[0]
+		rw.WriteRes = rw.WriteRes[1:]
+	}
+	if rw.OnOp != nil {
+		rw.OnOp("write", p, fail)
 	}
 	rw.Ops = append(rw.Ops, WOp{Seq: rw.w.NextSeq(), Kind: "write", Data: string(p), Fail: fail})
 	rw.signal()
@@ -496,12 +628,20 @@ func (rw *RecWriter) signal() {
 }
 
 func (rw *RecWriter) flush() error {
+	gok := rw.park("flush")
 	rw.mu.Lock()
 	defer rw.mu.Unlock()
-	fail := false
+	fail := !gok
 	if rw.FailFlush > 0 {
 		rw.FailFlush--
 		fail = rw.FailFlush == 0
+	}
+	if len(rw.FlushRes) > 0 {
+		fail = fail || !rw.FlushRes[0]
+		rw.FlushRes = rw.FlushRes[1:]
+	}
+	if rw.OnOp != nil {
+		rw.OnOp("flush", nil, fail)
 	}
 	rw.Ops = append(rw.Ops, WOp{Seq: rw.w.NextSeq(), Kind: "flush", Fail: fail})
 	rw.signal()
